@@ -65,6 +65,9 @@ def kind_text(k, name="doc"):
         "figure_md_plain": "```{figure-md} figp-" + name + "\n![alt](a.png)\n\ncaption text\n```\n",
         "figure_md_fail": "```{figure-md}\nnot an image\n```\n",
         "xlink": "# X\n\n[](anchors_doc.md#sub-1) and [t](anchors_doc.md#sub)\n",
+        # a page that switches smartquotes on for itself, and a plain page whose quotes Sphinx's own transform converts
+        "fm_smartquotes": '---\nmyst:\n  enable_extensions: [smartquotes]\n---\n\n# SQ ' + name + '\n\n"quoted" -- text...\n',
+        "quotes_plain": '# Plain ' + name + '\n\n"hello" -- it\'s...\n',
         "include_doc": "# Includes a document\n\n```{include} inca.md\n```\n",
         "amsmath": "# Math\n\n\\begin{align*}\na &= b\\\\\nc &= d\n\\end{align*}\n\ntext\n",      # (written by the process that did not read it)
         "strike": "# S " + name + "\n\nsome ~~struck~~ text\n",                          # one warning per document, whoever was read before      # another document of the build, which itself includes a file
@@ -413,7 +416,8 @@ def run(ctx):
                 break
     # a second, small family: a document that includes another document of the build (which includes a file); every
     # read order, serial and split over two workers -- each document's output must be the same in all of them
-    bdocs2 = [("inca", "include"), ("incb", "include_doc"), ("imgz", "html_img"), ("amath", "amsmath"), ("s1", "strike"), ("s2", "strike")]
+    bdocs2 = [("inca", "include"), ("incb", "include_doc"), ("imgz", "html_img"), ("amath", "amsmath"), ("s1", "strike"), ("s2", "strike"),
+              ("sq1", "fm_smartquotes"), ("sq2", "quotes_plain")]
     names2 = [n for n, _ in bdocs2]
     rot = lambda k: names2[k:] + names2[:k]      # noqa: E731
     sch2 = [(names2, None), (names2[::-1], None), (rot(1), None), (rot(2), None), (rot(4), None), (["incb", "inca", "s2", "s1", "amath", "imgz"], None)]
